@@ -2,6 +2,7 @@ package main
 
 import (
 	"fmt"
+	"go/ast"
 	"go/constant"
 	"go/token"
 	"go/types"
@@ -296,6 +297,7 @@ func (fc *FnCtx) globalAddr(g *ssa.Global) Val {
 		region := "G." + name
 		if fc.eng.immutableGlobals[g] {
 			region = "K.G." + name
+			fc.immutableGlobalFacts(g, region, elem)
 		}
 		return Val{Loc: &Loc{Region: region, Sort: sortOf(elem), Typ: elem}, Typ: g.Type()}
 	}
@@ -1274,9 +1276,10 @@ func (fc *FnCtx) convert(x *ssa.Convert) Val {
 func (fc *FnCtx) execReturn(x *ssa.Return) {
 	fc.retBlocks = append(fc.retBlocks, fc.cur)
 	// vacuity: this return must not be provably unreachable from the assumptions made so far
-	fc.ordinals["vacuity:return"]++
-	fc.obls = append(fc.obls, &Obligation{Name: fmt.Sprintf("%s/vacuity:return#%d", fc.name, fc.ordinals["vacuity:return"]), Fn: fc.name, Kind: "vacuity", Props: fc.props,
-		Goal: not(fc.curReach), NAssume: len(fc.assumes), fc: fc, Expect: "sat", Text: "return is reachable under all assumptions (no contradiction)"})
+	fc.ordinals["cover:return"]++
+	fc.obls = append(fc.obls, &Obligation{Name: fmt.Sprintf("%s/cover:return#%d", fc.name, fc.ordinals["cover:return"]), Fn: fc.name, Kind: "cover", Props: fc.props,
+		Goal: not(fc.curReach), NAssume: len(fc.assumes), fc: fc, Expect: "sat", Text: "this return is reachable under the contract (informational: unsat = dead path under the preconditions)"})
+	fc.retReach = append(fc.retReach, fc.curReach)
 	env := fc.entryEnv()
 	env.heap = fc.heap
 	env.ghost = fc.ghost
@@ -1309,10 +1312,50 @@ func (fc *FnCtx) execReturn(x *ssa.Return) {
 	}
 	// locks must be balanced
 	if fc.usesLocks() {
-		fc.oblige("lock:balanced", "", eq(fc.ghost["held"], fc.ghost0["held"]), nil, "every mutex locked by this function is unlocked on return (and no other)", x.Pos())
+		m := fc.fresh("anymutex", sInt)
+		fc.oblige("lock:balanced", "", eq(sel(fc.ghost["held"], m), sel(fc.ghost0["held"], m)), nil, "every mutex locked by this function is unlocked on return (and no other)", x.Pos())
 	}
 }
 
 func (fc *FnCtx) usesLocks() bool {
 	return fc.ghost["held"] != fc.ghost0["held"] || strings.Contains(fc.con.Opts["locks"], "1")
+}
+
+// immutableGlobalFacts: a package-level variable that is never written after init and whose initialiser is
+// `&T{...}` holds a non-nil pointer (to an object distinct from every other such global).
+func (fc *FnCtx) immutableGlobalFacts(g *ssa.Global, region string, elem types.Type) {
+	key := "gfact:" + region
+	if fc.declared[key] {
+		return
+	}
+	fc.declared[key] = true
+	init, ok := fc.eng.globalInit[g]
+	if !ok {
+		return
+	}
+	ue, ok := init.(*ast.UnaryExpr)
+	if !ok || ue.Op != token.AND {
+		return
+	}
+	cl, ok := ue.X.(*ast.CompositeLit)
+	if !ok {
+		return
+	}
+	tv, ok := fc.eng.info.Types[cl]
+	if !ok {
+		return
+	}
+	pt := types.NewPointer(tv.Type)
+	val := fc.entryHeap.get(region, sortOf(elem))
+	ref := qsym("gobj." + g.Name())
+	fc.declare(ref, sInt)
+	fc.declareFun(qsym("gobjid"), []string{sInt}, sInt)
+	fc.assume(and(not(eq(ref, "0")), eq(sx("allocid", ref), "0"), eq(sx("kind", ref), "0"), eq(sx(qsym("gobjid"), ref), num(int64(fc.eng.globalOrdinal(g))))))
+	switch sortOf(elem) {
+	case sIface:
+		fc.assume(eq(val, sx("mk-iface", num(int64(fc.eng.typeIDOf(pt))), ref)))
+	case sInt:
+		fc.assume(eq(val, ref))
+	}
+	fc.trusted["package-level variable "+g.Name()+" is never written after init (checked mechanically) and holds the non-nil object of its initialiser"] = true
 }
